@@ -171,8 +171,11 @@ impl F51x4Unreduced {
 
     #[inline]
     pub fn negate_lazy(&self) -> F51x4Unreduced {
-        let lo = u64x4::splat(36028797018963664u64);
-        let hi = u64x4::splat(36028797018963952u64);
+        // 32*p, limbwise.  16*p is not enough: the top limb of an unreduced
+        // product can slightly exceed 2^55 - 16 (it accumulates six low and
+        // eight high half-products), and the subtraction would wrap.
+        let lo = u64x4::splat(72057594037927328u64);
+        let hi = u64x4::splat(72057594037927904u64);
         F51x4Unreduced([
             lo - self.0[0],
             hi - self.0[1],
